@@ -67,7 +67,8 @@ CHECKS['C19'] = dict(
         'from the server\'s version reply (big-endian bytes 4..7) through the client\'s reassembly expression (re-read from the source term by term: index, '
         'mask, cast, shift; checked for all 256 patterns per byte incl. C99 shift definedness) into both logins is the identity for every int, so the login the '
         'client sends is the one the server computes; a session\'s challenge changes only when a version handshake claims the slot, so the raw login '
-        'is checked against the challenge of the version reply. RFC test vectors by computation. Tied to login.c, md5.c and the real handshake_version / handshake_login / '
+        'is checked against the challenge of the version reply; over the sequencing model of the handshake (coq/Handshake.v) the challenge handshake_version stores is, for every script of datagrams, '
+        'the one cli_version reads from a datagram that fitted one of its version queries. RFC test vectors by computation. Tied to login.c, md5.c and the real handshake_version / handshake_login / '
         'send_raw_udp_login / version and login handlers by correspondence with hashlib as third oracle, also under ASan/UBSan.',
    note='Trusts: MD5 model tied to md5.c by correspondence and to the RFC by its 7 test vectors (no collision-resistance claim); signed '
         'overflow of seed+1/seed-1 at INT_MAX/INT_MIN wraps (gcc); Coq kernel; translator; extraction; gcc.',
